@@ -201,6 +201,14 @@ func (r *Run) contradictsHelperResult(path *Path, j int) bool {
 			return nil, nil, false
 		}
 		res, rfn, ok := r.P.inlinedResults(fn, rhs)
+		for k := 0; ok && idx >= len(res) && len(res) == 1 && k < 4; k++ {
+			// the helper ended in `return g(…)` with several results: g's own return on this path
+			call2, isCall := ast.Unparen(res[0]).(*ast.CallExpr)
+			if !isCall {
+				break
+			}
+			res, rfn, ok = r.P.inlinedResults(rfn, call2)
+		}
 		if !ok || idx >= len(res) {
 			return nil, nil, false
 		}
